@@ -312,6 +312,19 @@ def identity_check(ctx, case, obj, kind, rng) -> None:
     blocks_before = [(_ident(i), i.line.split("\n")[0]) for i in obj.items if type(i).__name__ == "AceGroup"] \
         if cls in ("Acl", "AceGroup") else []
     platform_before = getattr(obj, "platform", None)
+
+    def member_ids(o):
+        """(uuid, note identity) of every address-group member reachable from the object."""
+        out = []
+        aces = [o] if cls == "Ace" else ([i for i in items if type(i).__name__ == "Ace"] if cls in ("Acl", "AceGroup") else [])
+        for ace in aces:
+            for addr in (ace.srcaddr, ace.dstaddr):
+                out.extend(_ident(m) for m in addr.items)
+        if cls == "Address":
+            out.extend(_ident(m) for m in o.items)
+        return out
+
+    members_before = member_ids(obj)
     multi = any(type(i).__name__ == "Ace" and any(p.operator in ("eq", "neq") and len(p.items) > 1 for p in (i.srcport, i.dstport))
                 for i in items)
     try:
@@ -369,6 +382,12 @@ def identity_check(ctx, case, obj, kind, rng) -> None:
             ctx.violation(case, f"in-place transformation {kind} replaced the blocks (AceGroup objects) of the {cls}: new uuid / note",
                           {"blocks": [b[1] for b in blocks_before][:4], "group_by": getattr(obj, "group_by", None),
                            "platform": [platform_before, getattr(obj, "platform", None)]}, known=known)
+    if members_before and kind not in ("group", "ungroup", "type-switch"):  # (extended -> standard drops the destination side)
+        items = _flat(obj.items) if cls in ("Acl", "AceGroup") else items
+        ctx.count("member_identities_judged")
+        if sorted(member_ids(obj)) != sorted(members_before):
+            ctx.violation(case, f"in-place transformation {kind} replaced address-group members of the {cls} (new uuid / note)",
+                          {"members_before": len(members_before), "platform": [platform_before, getattr(obj, "platform", None)]})
     after = _flat(obj.items) if cls in ("Acl", "AceGroup") else (list(obj.items) if has_items else [])
     if kind in ("sort", "reverse"):
         if sorted(i[0][0] for i in before_items) != sorted(i.uuid for i in after) or \
